@@ -252,8 +252,8 @@ func c04KeyFor(c *Certificate) {
 //verif:stub crypto/ed25519.NewKeyFromSeed = c04NewKeyFromSeed
 //verif:stub (crypto/ed25519.PrivateKey).Sign = c04Sign
 //verif:stub golang.org/x/crypto/sha3.New256 = c18FakeSHA3
-//verif:bounds root with symbolic validity window (32-bit seconds), key id and 2-byte fingerprint; intermediate issued by the real IssueIntermediate at an arbitrary clock reading; leaf issued by the real IssueLeafAt at a symbolic instant (32-bit seconds) for a symbolic validity (0..2^32-1 s) with 0..1 names of 0 or 2 symbolic bytes; verification instant symbolic inside the leaf's window; signatures idealised (signature names the key id; key pair = same id), fingerprints fresh and assumed non-zero
-//verif:cover intermediate refused;leaf refused;chain verified;leaf clamped;leaf not clamped
+//verif:bounds root with symbolic validity window (32-bit seconds), key id and 2-byte fingerprint; intermediate issued by the real IssueIntermediate at an arbitrary clock reading; leaf issued by the real IssueLeafAt (symbolic instant, 32-bit seconds, symbolic validity 0..2^32-1 s) or IssueLeafWithValidity / IssueLeaf (clock reading) under a parent whose type is intermediate, root or leaf, with 0..1 names of 0 or 2 symbolic bytes, then serialised and parsed back; verification instant symbolic inside the leaf's window; signatures idealised (signature names the key id; key pair = same id), fingerprints fresh and assumed non-zero
+//verif:cover intermediate refused;leaf refused;chain verified;leaf clamped;leaf not clamped;non-intermediate parent refused
 //verif:timeout 600
 func VH_C04_issued_chain_verifies_throughout_leaf_validity() {
 	root := &Certificate{
@@ -286,9 +286,37 @@ func VH_C04_issued_chain_verifies_throughout_leaf_validity() {
 		want = Name{Label: verifBytes("leaf-name", n), Type: IDType(verifU8("leaf-nametype") % 4)}
 		leafID.Names = []Name{want}
 	}
+	// the parent handed to the leaf-issuing entry point may be of any type:
+	// only an intermediate can head a chain that verifies
+	ptype := CertificateType(verifPick("leaf-parent-type", int(Intermediate), int(Root), int(Leaf)))
+	inter.Type = ptype
 	at := int64(verifU32("leaf-issued-at"))
 	secs := int64(verifU32("leaf-validity-seconds"))
-	leaf, err := IssueLeafAt(inter, leafID, time.Unix(at, 0), time.Duration(secs)*time.Second)
+	var leaf *Certificate
+	switch verifPick("entry-point", 0, 1, 2) {
+	case 0:
+		leaf, err = IssueLeafAt(inter, leafID, time.Unix(at, 0), time.Duration(secs)*time.Second)
+	case 1:
+		leaf, err = IssueLeafWithValidity(inter, leafID, time.Duration(secs)*time.Second)
+		if err == nil {
+			at = leaf.IssuedAt.Unix() // issued at the clock reading
+		} else {
+			verifAssume(false) // refusal conditions are asserted through IssueLeafAt
+		}
+	default:
+		leaf, err = IssueLeaf(inter, leafID)
+		secs = 7 * 24 * 3600
+		if err == nil {
+			at = leaf.IssuedAt.Unix()
+		} else {
+			verifAssume(false)
+		}
+	}
+	if ptype != Intermediate {
+		verifAssert(err != nil, "C04: no leaf-issuing entry point issues under a parent that is not an intermediate (such a chain can never verify)")
+		verifCover("non-intermediate parent refused")
+		return
+	}
 	parentValidAt := verifAnd(inter.IssuedAt.Unix() <= at, at < inter.ExpiresAt.Unix())
 	if err != nil {
 		verifCover("leaf refused")
@@ -306,6 +334,19 @@ func VH_C04_issued_chain_verifies_throughout_leaf_validity() {
 	}
 	verifAssert(leaf.ExpiresAt.Unix() == wantExp, "C04: issued leaf expires at min(requested expiry, parent's expiry)")
 
+	// what a peer verifies is the certificate as it arrives: serialise the
+	// issued leaf and parse it back
+	wire := &c18Buf{b: make([]byte, 0, 512)}
+	_, werr := leaf.WriteTo(wire)
+	verifAssert(werr == nil, "C04: an issued leaf serialises")
+	parsed := &Certificate{}
+	_, rerr := parsed.ReadFrom(wire)
+	verifAssert(rerr == nil, "C04: an issued leaf parses back from its own serialisation")
+	if werr != nil || rerr != nil {
+		return
+	}
+	leaf = parsed
+
 	var store Store
 	store.AddCertificate(root)
 	now := int64(verifU32("now"))
@@ -314,3 +355,16 @@ func VH_C04_issued_chain_verifies_throughout_leaf_validity() {
 	verifAssert(verr == nil, "C04: a chain produced by the issuing functions verifies at every instant of the leaf's validity")
 	verifCover("chain verified")
 }
+
+// A trust store is loaded from a PEM bundle: the certificates a store is built
+// from must be the ones in the bundle (C04's "present in the trust store").
+//
+//verif:prop C04
+//verif:stub encoding/pem.Decode = c18PemDecode
+//verif:replay none
+//verif:stub golang.org/x/crypto/sha3.New256 = c18FakeSHA3
+//verif:nostub hop.computer/hop/keys.VerifySignature
+//verif:bounds as VH_C18_certificates_in_a_bundle_are_read_independently
+//verif:cover bundle read
+//verif:timeout 600
+func VH_C04_trust_store_bundle_is_read_certificate_by_certificate() { c18Bundle("C04", 2) }
